@@ -20,7 +20,8 @@ FILES = {
     'client2': ('client2', 'class.stone'),
     'names': ('names', 'names.stone'),
 }
-OPS = ['blank', 'sp1', 'sp4', 'sp8', 'comment0', 'commentP', 'commentN', 'trail', 'trailc', 'delete']
+OPS = ['blank', 'sp1', 'sp4', 'sp8', 'tab', 'comment0', 'commentP', 'commentN', 'commentT', 'trail', 'trailt', 'trailc',
+       'traildoc', 'delete']
 CHUNK = 120
 
 
@@ -70,17 +71,21 @@ def _indent_of(line):
 def edited(key, op, k):
     """the spec list with one layout edit at line / boundary k, or None when the edit does not apply there"""
     specs, idx, lines, in_string, _ = _info(key)
-    if k > len(lines) or (k == len(lines) and op in ('trail', 'trailc', 'delete')):
+    if k > len(lines) or (k == len(lines) and op in ('trail', 'trailt', 'trailc', 'traildoc', 'delete')):
         return None
     before_in_string = in_string[k - 1] if k > 0 else False
     new = None
-    if op in ('blank', 'sp1', 'sp4', 'sp8', 'comment0', 'commentP', 'commentN'):
+    if op in ('blank', 'sp1', 'sp4', 'sp8', 'tab', 'comment0', 'commentP', 'commentN', 'commentT'):
         if before_in_string:
             return None                        # the boundary lies inside a multi-line string
         if op == 'blank':
             ins = ''
         elif op.startswith('sp'):
             ins = ' ' * int(op[2:])
+        elif op == 'tab':
+            ins = '\t'
+        elif op == 'commentT':
+            ins = '\t# c'
         elif op == 'comment0':
             ins = '# c'
         elif op == 'commentP':
@@ -94,12 +99,17 @@ def edited(key, op, k):
                 return None
             ins = ' ' * _indent_of(nxt[0]) + '#c'
         new = lines[:k] + [ins] + lines[k:]
-    elif op in ('trail', 'trailc'):
+    elif op in ('trail', 'trailt', 'trailc'):
         if in_string[k]:
             return None
         if op == 'trailc' and not lines[k].strip():
             return None
-        new = lines[:k] + [lines[k] + ('  ' if op == 'trail' else ' # c')] + lines[k + 1:]
+        new = lines[:k] + [lines[k] + {'trail': '  ', 'trailt': '\t', 'trailc': ' # c'}[op]] + lines[k + 1:]
+    elif op == 'traildoc':
+        # trailing blanks on a line that ends INSIDE a multi-line doc string (all such strings of the catalogue are docs)
+        if not in_string[k]:
+            return None
+        new = lines[:k] + [lines[k] + '  '] + lines[k + 1:]
     elif op == 'delete':
         if before_in_string or in_string[k]:
             return None
@@ -125,11 +135,11 @@ def items():
 
 
 @hx.harness(props=['C11'], targets=['stone.frontend.frontend:specs_to_ir'], items=items,
-            bound='every position of one layout edit (empty line / line of 1, 4, 8 spaces / comment line at column 0, at '
-                  'the previous or the next line\'s indentation, inserted at boundary k; trailing spaces / trailing comment '
-                  'appended to line k; blank or comment-only line k deleted) in a window of %d positions of one catalogue '
+            bound='every position of one layout edit (empty line / line of 1, 4, 8 spaces / a tab / comment line at column 0, at '
+                  'the previous or the next line\'s indentation, after a tab, inserted at boundary k; trailing spaces / tab / '
+                  'comment appended to line k; trailing spaces inside a multi-line doc string; blank or comment-only line k deleted) in a window of %d positions of one catalogue '
                   'spec file (finite enumeration); boundaries inside multi-line strings excluded' % CHUNK,
-            outside=['several edits at once', 'files other than the catalogue specs', 'tabs',
+            outside=['several edits at once', 'files other than the catalogue specs', 'tabs as indentation of content lines',
                      'ordering / file-splitting / stdin clauses of C11 (structural)'], budget=(200, 600))
 def layout_edit(j: int) -> bool:
     """
